@@ -73,7 +73,8 @@ def run_deductive(prop, tier, seed, report):
     eng = Engine()
     known = load_known()
     ledger = load_ledger()
-    keys = [k for k, c in eng.side.contracts.items() if prop in props_of_contract(c)]
+    keys = [k for k, c in eng.side.contracts.items() if prop in props_of_contract(c) and c.opts.get('verify', True)]
+    unverified = sorted(k for k, c in eng.side.contracts.items() if not c.opts.get('verify', True))
     funcs = {}
     for k in sorted(keys):
         funcs[k] = eng.verify_function(k)
@@ -117,6 +118,7 @@ def run_deductive(prop, tier, seed, report):
         "solver_wall_s": round(solver_wall, 2), "smoke_checked": sum(1 for ob in obs if ob.expect_fail),
         "typing_assumptions": eng.typing_assumptions,
         "assumed_contracts_used": sorted(eng.used_assumptions),
+        "repo_contracts_not_verified": unverified,
     }
     report["samples"] = samples
     report["_engine"] = eng
